@@ -277,7 +277,7 @@ pub fn run(mut ctx0: Ctx) {
                 for read_step in [16usize, 64] {
                     for drop_sink in [false, true] {
                         let download: Vec<u8> = (0..size).map(|i| b'a' + (i % 26) as u8).collect();
-                        let opts = vh1::ClientOpts { capacity, read_step, drop_sink_after_eof: drop_sink, client_closes_last: true, peer_script: vec![] };
+                        let opts = vh1::ClientOpts { capacity, read_step, drop_sink_after_eof: drop_sink, client_closes_last: true, peer_script: vec![], abort_relay: false };
                         let desc = format!("CONNECT answered 200, {} payload bytes towards a client reading {} bytes at a time over a {}-byte transport, sink {} after eof()", size, read_step, capacity, if drop_sink { "dropped" } else { "flushed" });
                         let st2 = st.clone();
                         let (h2, d2) = (head.clone(), download.clone());
@@ -301,6 +301,36 @@ pub fn run(mut ctx0: Ctx) {
                         }
                     }
                 }
+            }
+        }
+    }
+    // ---- the relay side goes away without an orderly end (aborted origin, pipe error, idle timeout): the response sink and the
+    // upload source are dropped without eof() while the client keeps its connection open and says nothing more. The session
+    // must end there and then - the client sees its connection closed - not when the client next moves -------------------
+    {
+        let ctx = &mut ctx0;
+        for (whole_head, size) in [(true, 0usize), (true, 5), (false, 5), (true, 3000)] {
+            let head = b"CONNECT example.org:443 HTTP/1.1\r\nHost: example.org:443\r\n\r\n".to_vec();
+            let chunks = if whole_head { vec![head.clone()] } else { vec![head[..20].to_vec(), head[20..].to_vec()] };
+            let download: Vec<u8> = (0..size).map(|i| b'a' + (i % 26) as u8).collect();
+            let opts = vh1::ClientOpts { capacity: 1 << 20, read_step: 0, drop_sink_after_eof: false, client_closes_last: true, peer_script: vec![], abort_relay: true };
+            let desc = format!("CONNECT ({}) answered 200 and {} payload bytes, then the relay side is dropped without eof(); the client stays connected and silent", if whole_head { "head in one read" } else { "head in two reads" }, size);
+            let st2 = st.clone();
+            let d2 = download.clone();
+            let handle = rt.spawn(async move { vh1::session_with(st2, chunks, true, d2, opts).await });
+            let obs = rt.block_on(async { tokio::time::timeout(std::time::Duration::from_secs(12), handle).await });
+            ctx.stat("aborted_relay_sessions");
+            match obs {
+                Ok(Ok(o)) => {
+                    if !o.session_ok || !o.transport_eof {
+                        ctx.oracle_failure(
+                            "session_outlives_its_relay",
+                            &format!("{}: 5 s later the session {} and the client {} its connection closed", desc, if o.session_ok { "had ended" } else { "was still running" }, if o.transport_eof { "had seen" } else { "had not seen" }),
+                        );
+                    }
+                }
+                Ok(Err(e)) => ctx.oracle_failure("panic", &format!("HTTP/1.1 session panicked ({}): {}", e, desc)),
+                Err(_) => ctx.oracle_failure("spin_or_hang", &format!("HTTP/1.1 session did not finish in 12 s: {}", desc)),
             }
         }
     }
@@ -357,7 +387,7 @@ pub fn run(mut ctx0: Ctx) {
                 segs.iter().map(|s| s.len()).collect::<Vec<_>>(),
                 shape.join(", ")
             );
-            let opts = vh1::ClientOpts { capacity: 1 << 20, read_step: 0, drop_sink_after_eof: false, client_closes_last: true, peer_script: script };
+            let opts = vh1::ClientOpts { capacity: 1 << 20, read_step: 0, drop_sink_after_eof: false, client_closes_last: true, peer_script: script, abort_relay: false };
             let st2 = st.clone();
             let handle = rt.spawn(async move { vh1::session_with(st2, chunks, true, vec![], opts).await });
             let obs = rt.block_on(async { tokio::time::timeout(std::time::Duration::from_secs(8), handle).await });
